@@ -444,6 +444,7 @@ func runCheck(prop, tier string) int {
 							for i := range r.Violations {
 								r.Violations[i].part = pt
 							}
+							r.test = pt.Test
 							mu.Lock()
 							results = append(results, r)
 							mu.Unlock()
